@@ -392,6 +392,12 @@ def _run_branch(case, ctx):
     P = _fit_params(name, r)
     p = _grid_for(name, P, r, n=r.randint(8, 25))
     l = numpy.asarray(GM.make_model(name, P).loading(p), dtype=float)
+    if case["seed"] % 2:
+        # the user's marks need not agree with a split at the pressure maximum: adsorption rows in measured (non-monotone) order
+        perm = list(range(len(p)))
+        r.shuffle(perm)
+        p, l = p[perm], l[perm]
+        ctx.count("branch", "marks-disagree-with-a-split-at-the-pressure-maximum")
     # desorption branch: unrelated garbage
     nd = r.randint(3, 12)
     pd_ = numpy.array(sorted((r.uniform(p.min(), p.max() * 0.99) for _ in range(nd)), reverse=True))
